@@ -251,6 +251,50 @@ pub fn mark_all_durable() {
     });
 }
 
+// ---------------------------------------------------------------------------------------------
+// statement-level fault: SQLITE_INTERRUPT in the middle of a statement. Every connection SQLite opens
+// in this process gets a progress handler (installed through an auto-extension, so also the
+// connections the code under test opens itself); it is called every few virtual-machine instructions
+// and, when armed, makes the statement running at the chosen callback fail with SQLITE_INTERRUPT.
+// This reaches the points BETWEEN the statements of one storage call, which neither the storage-call
+// faults (whole calls) nor the VFS faults (the pager mostly works from its cache) can reach.
+
+static PROGRESS_CALLS: std::sync::atomic::AtomicU64 = std::sync::atomic::AtomicU64::new(0);
+/// u64::MAX = not armed
+static INTERRUPT_AT: std::sync::atomic::AtomicU64 = std::sync::atomic::AtomicU64::new(u64::MAX);
+static INTERRUPT_FIRED: std::sync::atomic::AtomicU64 = std::sync::atomic::AtomicU64::new(0);
+const PROGRESS_EVERY: c_int = 6;
+
+unsafe extern "C" fn progress_cb(_ctx: *mut c_void) -> c_int {
+    use std::sync::atomic::Ordering::SeqCst;
+    let n = PROGRESS_CALLS.fetch_add(1, SeqCst);
+    if n == INTERRUPT_AT.load(SeqCst) {
+        INTERRUPT_FIRED.fetch_add(1, SeqCst);
+        return 1;
+    }
+    0
+}
+
+unsafe extern "C" fn auto_ext(db: *mut ffi::sqlite3, _err: *mut *mut c_char, _api: *const ffi::sqlite3_api_routines) -> c_int {
+    ffi::sqlite3_progress_handler(db, PROGRESS_EVERY, Some(progress_cb), std::ptr::null_mut());
+    ffi::SQLITE_OK
+}
+
+/// Start counting progress callbacks from zero; `at`: make the callback with this index interrupt.
+pub fn begin_interrupt_window(at: Option<u64>) {
+    use std::sync::atomic::Ordering::SeqCst;
+    PROGRESS_CALLS.store(0, SeqCst);
+    INTERRUPT_FIRED.store(0, SeqCst);
+    INTERRUPT_AT.store(at.unwrap_or(u64::MAX), SeqCst);
+}
+
+/// Disarm; returns (callbacks seen, interrupts delivered).
+pub fn end_interrupt_window() -> (u64, u64) {
+    use std::sync::atomic::Ordering::SeqCst;
+    INTERRUPT_AT.store(u64::MAX, SeqCst);
+    (PROGRESS_CALLS.load(SeqCst), INTERRUPT_FIRED.load(SeqCst))
+}
+
 pub fn begin_window(fault: Option<VfsFault>) {
     with(|s| {
         s.kind_count.clear();
@@ -1045,6 +1089,8 @@ pub fn install() {
     static ONCE: std::sync::Once = std::sync::Once::new();
     ONCE.call_once(|| unsafe {
         ffi::sqlite3_initialize();
+        let rc = ffi::sqlite3_auto_extension(Some(auto_ext));
+        assert_eq!(rc, ffi::SQLITE_OK, "auto extension");
         let rv = ffi::sqlite3_vfs_find(c"unix".as_ptr());
         assert!(!rv.is_null(), "unix vfs");
         let _ = REAL.set(Real(rv));
